@@ -8,9 +8,10 @@ CHECKS = {
  'C05': dict(text='For every finite binary64 elevation field on each listed configuration, multi_flow_router::apply yields exactly the unmasked strictly lower neighbours as receivers (each once, neighbour order, grid distance) and a single self receiver otherwise; also after a second application on the same graph object. '
                   'Weight clause: only the NaN-weights finding is demonstrated (counter-example replayed natively); the numeric weight formula is not claimed at binary64 (the divider equivalence query did not finish: 15 min, cvc5).',
              note=NOTE + '; traversal-order computations called at the end of apply are cut (decided in C06)', technique=TECH),
- 'C11': dict(text='Part (a) only: for every range start, length <= RANGE and min block size <= MINMAX and each pool size 1..16, thread_pool::blocks yields non-empty, contiguous, disjoint blocks covering the range, at most pool-size many, without division by zero. '
-                  'Parts (b) protocol/deadlock and (c) memory-model race are not decided by this check (see DESIGN.md).',
-             note=NOTE, technique=TECH),
+ 'C11': dict(text='(a) for every range start, length <= RANGE and min block size <= MINMAX and each pool size 1..16, thread_pool::blocks yields non-empty, contiguous, disjoint blocks covering the range, at most pool-size many, no division by zero (cbmc over the translated class). '
+                  '(c) the publish/consume handshake of one run_blocks round is free of data races in the C++ memory model: the four memory orders are read from the LLVM IR of the real code on every run, z3 decides happens-before over a 10-event skeleton, a reported race is confirmed with ThreadSanitizer on the real pool. '
+                  '(b) lost wake-ups / deadlock over pause, resume, resize, stop is NOT decided.',
+             note=NOTE + '; (c): the event skeleton is hand-written in tools/pool_hb.py and anchored to the IR by source text (skeleton change -> check error)', technique=TECH + '; part (c): z3 happens-before query over memory orders extracted from the IR'),
  'C08': dict(text='cbmc bounds/pointer/division-by-zero/shift instrumentation over the translated real code of the units the other checks use (node iterators on real profile grids, single and multiple direction routers on symbolic elevation fields, worker-pool partition arithmetic, eroder setters), inside those harnesses\' bounds; '
                   'every reported failure is confirmed by replaying the counter-example against the real code under ASan+UBSan before it counts.',
              note=NOTE + '; not decided: use-after-scope through references to temporaries, uninitialised reads, signed overflow, data races, and all units the encoder could not reach (sink resolvers, basin graph, diffusion, mesh, snapshots)', technique=TECH),
